@@ -32,7 +32,11 @@ pub const INFO: Info = Info {
            each and bins >= 2. psmpep: synthetic PSM feature tables (a latent quality drives all 20 LDA inputs, every \
            column noisy) through the real score_psms: ordinary overlapping sets; sets with a ladder of outstanding \
            targets far above all decoys (PEP between 1e-300 and 1e-46, where an f32 would already be 0); sets with a \
-           target so far out that the PEP is exactly 0 (legitimate -324 floor); sets whose fit fails (a NaN feature)",
+           target so far out that the PEP is exactly 0 (legitimate -324 floor); sets whose fit fails (a NaN / infinite \
+           feature, only targets, only decoys, 1-4 PSMs, identical rows). Stream `degenerate` (kde, outside the \
+           precondition, model agreement checked, spec `na` or the zero-variance clause): n = 1, n = 2, a single \
+           class, all scores equal, a NaN/+inf/-inf score, bins = 1, bins = 0 (panic), queries outside [min,max] \
+           and non-finite queries",
     serial: false,
 };
 
@@ -377,7 +381,58 @@ pub fn gen(rng: &mut Rng, tier: Tier, emit: &mut dyn FnMut(Case)) {
         emit_case(KdeCase { scores, decoys, bins, bw: 1.0, mono: k % 2 == 1, sweep: sw }, "directed-gap", emit);
     }
 
+    gen_degenerate(rng, tier, emit);
     gen_psm(rng, tier, emit);
+}
+
+/// inputs OUTSIDE the property's precondition: every path of `build`/`posterior_error` they reach is mirrored by
+/// the model (agreement is checked), the spec answers `na` (or the zero-variance clause)
+fn gen_degenerate(rng: &mut Rng, tier: Tier, emit: &mut dyn FnMut(Case)) {
+    let reps = if tier == Tier::Quick { 1 } else { 8 };
+    let mut put = |scores: Vec<f64>, decoys: Vec<bool>, bins: usize, mono: bool, sweep: Vec<f64>, tag: &'static str| {
+        let c = KdeCase { scores, decoys, bins, bw: 1.0, mono, sweep };
+        emit(Case::new(request(&c)).tag("degenerate").tag(tag).nontrivial(false));
+    };
+    for rep in 0..reps {
+        let x = (rng.range(-8, 8) as f64) * 0.5 + rep as f64;
+        for &mono in &[true, false] {
+            // n = 1 (a single class, a single score): pi = 1 or 0, the other class is empty (mean = 0/0)
+            for &d in &[true, false] {
+                put(vec![x], vec![d], 100, mono, vec![x, x - 1.0, x + 1.0], "n=1");
+            }
+            // n = 2, one of each: both classes have zero variance
+            put(vec![x, x + 1.5], vec![true, false], 100, mono, vec![x, x + 0.75, x + 1.5], "n=2");
+            // only decoys / only targets with a proper spread
+            for &d in &[true, false] {
+                let sc: Vec<f64> = (0..6).map(|i| x + i as f64 * 0.5).collect();
+                let sw = sweep(rng, &sc, 7, 3);
+                put(sc, vec![d; 6], 7, mono, sw, if d { "only-decoys" } else { "only-targets" });
+            }
+            // all scores equal (min = max, step = 0, both variances 0)
+            put(vec![x; 6], vec![true, false, true, false, false, true], 100, mono, vec![x, x - 1.0, x + 1.0], "all-equal");
+            // a non-finite score among ordinary ones (a degenerate discriminant): NaN is skipped by min/max but
+            // poisons its class; an infinite one stretches the grid to infinity
+            for &bad in &[f64::NAN, f64::INFINITY, f64::NEG_INFINITY] {
+                for &cls in &[true, false] {
+                    let mut sc = vec![x, x + 1.0, x + 2.0, x + 0.5, x + 1.5, x + 2.5];
+                    let mut dc = vec![true, true, true, false, false, false];
+                    let at = rng.below(sc.len() + 1);
+                    sc.insert(at, bad);
+                    dc.insert(at, cls);
+                    put(sc, dc, 7, mono, vec![x, x + 1.25, x + 2.5, bad], "non-finite-score");
+                }
+            }
+            // a single bin (step = range/0) and no bin at all (the code panics: `bins - 1` / `last().unwrap()`)
+            let sc = vec![x, x + 1.0, x + 2.0, x + 0.5, x + 1.5, x + 2.5];
+            let dc = vec![true, true, true, false, false, false];
+            put(sc.clone(), dc.clone(), 1, mono, vec![x, x + 1.25, x + 2.5], "bins=1");
+            put(sc.clone(), dc.clone(), 0, mono, vec![x, x + 1.25], "bins=0");
+            // scores outside the fitted range and non-finite query points on a well-formed estimator
+            let mut sw = sweep(rng, &sc, 7, 2);
+            sw.extend([x - 3.0, x + 9.0, f64::NAN, f64::INFINITY, f64::NEG_INFINITY, f64::MAX, f64::MIN]);
+            put(sc, dc, 7, mono, sw, "query-outside");
+        }
+    }
 }
 
 /// one synthetic PSM: a latent quality `q` (decoys / wrong targets ~ N(0,1), correct targets ~ N(3,1),
@@ -438,7 +493,7 @@ fn gen_psm(rng: &mut Rng, tier: Tier, emit: &mut dyn FnMut(Case)) {
             // the outstanding / floor shapes need many ordinary PSMs: a handful of far-out targets must not
             // dominate the target covariance (LDA would turn away from the direction that separates them)
             let far = shape == "psm-outstanding" || shape == "psm-floor";
-            let n = if far { 800 + rng.below(1200) } else { 60 + rng.below(if quick { 240 } else { 1500 }) };
+            let n = if shape == "psm-floor" { 3000 + rng.below(2000) } else if far { 800 + rng.below(1200) } else { 60 + rng.below(if quick { 240 } else { 1500 }) };
             let mut feats = Vec::new();
             for _ in 0..n {
                 if rng.chance(1, 2) {
@@ -460,11 +515,9 @@ fn gen_psm(rng: &mut Rng, tier: Tier, emit: &mut dyn FnMut(Case)) {
                     }
                 }
                 "psm-floor" => {
-                    for _ in 0..1 {
-                        // (one target, moderately far: a more extreme one inflates the target covariance and
-                        // LDA turns away from it — the score in decoy bandwidths goes DOWN again)
-                        { let q = 44.0 + 16.0 * rng.unit(); feats.push(psm(rng, false, q)); }
-                    }
+                    // (ONE target, moderately far, among many ordinary PSMs: several or more extreme ones inflate the
+                    // target covariance and LDA turns away from them — the score in decoy bandwidths goes DOWN)
+                    { let q = 44.0 + 16.0 * rng.unit(); feats.push(psm(rng, false, q)); }
                 }
                 "psm-fit-fails" => {
                     let i = rng.below(feats.len());
@@ -480,6 +533,38 @@ fn gen_psm(rng: &mut Rng, tier: Tier, emit: &mut dyn FnMut(Case)) {
             rng.shuffle(&mut feats);
             let (kind, lo, hi) = *rng.pick(&[(0usize, -50.0f32, 50.0f32), (0, -10.0, 10.0), (1, -0.5, 0.5)]);
             emit(Case::new(psm_request(kind, lo, hi, &feats)).tag(shape));
+        }
+    }
+    // ---- degenerate PSM tables: what `score_psms` does before/instead of fitting the PEP model
+    let reps = if quick { 2 } else { 10 };
+    for rep in 0..reps {
+        for &shape in &["psm-only-targets", "psm-only-decoys", "psm-tiny", "psm-inf-feature", "psm-identical"] {
+            let n = match shape {
+                "psm-tiny" => 1 + rep % 4,
+                _ => 20 + rng.below(60),
+            };
+            let mut feats = Vec::new();
+            for i in 0..n {
+                let decoy = match shape {
+                    "psm-only-targets" => false,
+                    "psm-only-decoys" => true,
+                    _ => i % 2 == 0,
+                };
+                let q = if decoy { gauss(rng) } else { 2.0 + gauss(rng) };
+                feats.push(psm(rng, decoy, q));
+            }
+            if shape == "psm-inf-feature" {
+                let i = rng.below(feats.len());
+                feats[i].hyperscore = if rep % 2 == 0 { f64::INFINITY } else { 1e308 };
+            }
+            if shape == "psm-identical" {
+                // every PSM of a class has the same features: zero within-class scatter
+                let (d0, t0) = (psm(rng, true, 0.0), psm(rng, false, 3.0));
+                for f in feats.iter_mut() {
+                    *f = if f.label == -1 { d0.clone() } else { t0.clone() };
+                }
+            }
+            emit(Case::new(psm_request(0, -10.0, 10.0, &feats)).tag(shape).nontrivial(false));
         }
     }
 }
